@@ -72,8 +72,10 @@ Fixpoint mmap {A B} (f : A -> res B) (l : list A) : res (list B) :=
   | a :: l' => b <- f a ;; bs <- mmap f l' ;; Ok (b :: bs)
   end.
 
-Definition t_reduce {A} (f : A -> A -> A) (d : A) (rd : list Z) (t : tensor A) : res (tensor A) :=
+(* torch: an empty dim list means "reduce over every dimension" *)
+Definition t_reduce {A} (f : A -> A -> A) (d : A) (rd0 : list Z) (t : tensor A) : res (tensor A) :=
   let sh := shape t in
+  let rd := match rd0 with [] => zrange (zlen sh) | _ => rd0 end in
   let rs := red_shape sh rd in
   cells <- mmap (fun o => fold1 f (map (fun j => zget (data t) j d) (members sh rd o))) (zrange (prodZ rs)) ;;
   Ok (T rs cells).
